@@ -725,7 +725,7 @@ P("vc_astype_narrow_float32", lambda t: (lambda x: x[x.h >= 16777218.0])(t.df[["
 P("vc_astype_narrow_float32_eq", lambda t: (lambda x: x[x.h == 16777220.0])(t.df[["a", "u"]].assign(h=t.df.u + 16777216.0).astype({"h": "float32"})), tags={"valuechange"})
 P("concat_interleave_proj", lambda t: t.dd.concat([t.df, t.df4], interleave_partitions=True)[["u", "a"]] if t.lazy else t.dd.concat([t.df, t.df4]).sort_index(kind="stable")[["u", "a"]], needs_known=True, order_free=True)
 P("concat_interleave_overlap_proj", lambda t: t.dd.concat([t.df[["u", "a", "f"]], t.df.loc[3:8][["u", "a", "f"]] + 100], interleave_partitions=True)[["u"]] if t.lazy else t.dd.concat([t.df[["u", "a", "f"]], t.df.loc[3:8][["u", "a", "f"]] + 100]).sort_index(kind="stable")[["u"]], needs_known=True, needs_range=True, order_free=True)
-P("concat_interleave_overlap_proj_cumsum", lambda t: t.dd.concat([t.df[["u", "a", "f"]], t.df.loc[3:8][["u", "a", "f"]] + 100], interleave_partitions=True)[["u"]].u.cumsum() if t.lazy else t.dd.concat([t.df[["u", "a", "f"]], t.df.loc[3:8][["u", "a", "f"]] + 100]).sort_index(kind="stable")[["u"]].u.cumsum(), needs_known=True, needs_range=True)
+P("concat_interleave_overlap_proj_cumsum", lambda t: t.dd.concat([t.df[["u", "a", "f"]], t.df.loc[3:8][["u", "a", "f"]] + 100], interleave_partitions=True)[["u"]].u.cumsum() if t.lazy else t.dd.concat([t.df[["u", "a", "f"]], t.df.loc[3:8][["u", "a", "f"]] + 100]).sort_index(kind="stable")[["u"]].u.cumsum(), needs_known=True, needs_range=True, dask_only=True)  # the order of equal labels is dask's own
 P("concat_interleave_overlap_known_divisions", lambda t: t.dd.concat([t.df[["u", "a", "f"]], t.df.loc[3:8][["u", "a", "f"]] + 100], interleave_partitions=True)[["u"]].loc[0:2] if t.lazy else t.dd.concat([t.df[["u", "a", "f"]], t.df.loc[3:8][["u", "a", "f"]] + 100]).sort_index(kind="stable")[["u"]].loc[0:2], needs_known=True, needs_range=True)
 P("concat_interleave_proj_cumsum", lambda t: t.dd.concat([t.df, t.df4], interleave_partitions=True)[["u"]].u.cumsum() if t.lazy else t.dd.concat([t.df, t.df4]).sort_index(kind="stable")[["u"]].u.cumsum(), needs_known=True, needs_range=True)
 P("agg_multiindex_columns_select", lambda t: t.df.groupby("a").agg({"u": ["sum", "mean"], "f": ["max"]})[[("f", "max")]], order_free=True)
